@@ -249,19 +249,27 @@ AttemptType(reg, ptr, m, src, p, d) ==
   ELSE Done(TypeRes(size, alignment, regions, bv.vft, imp.out, d), bv.ins)
 
 (* ------------------------------- enums --------------------------------- *)
-IntRange(base) ==   \* <<min, max>> clipped to TLC's 32-bit integers
-  CASE base = "u8"  -> <<0, 255>>
-    [] base = "i8"  -> <<0 - 128, 127>>
-    [] base = "u16" -> <<0, 65535>>
-    [] base = "i16" -> <<0 - 32768, 32767>>
-    [] base \in {"u32", "u64", "u128"} -> <<0, 2147483647>>
-    [] OTHER -> <<0 - 2147483647, 2147483647>>
+(* <<min, max>> of an integer base type, as symbolic integers               *)
+IntRange(base) ==
+  CASE base = "u8"   -> <<Num("0", 0), Num("u8max", 0)>>
+    [] base = "i8"   -> <<Num("i8min", 0), Num("i8max", 0)>>
+    [] base = "u16"  -> <<Num("0", 0), Num("u16max", 0)>>
+    [] base = "i16"  -> <<Num("i16min", 0), Num("i16max", 0)>>
+    [] base = "u32"  -> <<Num("0", 0), Num("u32max", 0)>>
+    [] base = "i32"  -> <<Num("i32min", 0), Num("i32max", 0)>>
+    [] base = "u64"  -> <<Num("0", 0), Num("u64max", 0)>>
+    [] base = "i64"  -> <<Num("i64min", 0), Num("i64max", 0)>>
+    [] base = "u128" -> <<Num("0", 0), Num("u128max", 0)>>
+    [] OTHER         -> <<Num("i128min", 0), Num("i128max", 0)>>
+NumFits(base, x) == NumLE(IntRange(base)[1], x) /\ NumLE(x, IntRange(base)[2])
+(* the values the parser and the discriminant counter can hold (isize)     *)
+FitsIsize(x) == NumFits("i64", x)
 
 RECURSIVE EnumValues(_, _, _)
 EnumValues(vars, next, out) ==
   IF vars = <<>> THEN out
-  ELSE LET v == IF IsSome(Head(vars).val) THEN Head(vars).val ELSE next
-       IN EnumValues(Tail(vars), v + 1, Append(out, [name |-> Head(vars).name, val |-> v]))
+  ELSE LET v == IF Head(vars).val # NumNone THEN Head(vars).val ELSE next
+       IN EnumValues(Tail(vars), NumSucc(v), Append(out, [name |-> Head(vars).name, val |-> v]))
 
 EnumRes(size, align, ty, vals, dflt, d) ==
   [k |-> "enum", size |-> size, align |-> align, ty |-> ty, vars |-> vals, dflt |-> dflt,
@@ -272,16 +280,19 @@ AttemptEnum(reg, ptr, m, p, d) ==
   LET scope == ScopeOf(m)
       ty == ResolveTy(reg, scope, d.base)
       size == IF ty = TNone THEN None ELSE SizeOf(reg, ptr, ty)
-      vals == EnumValues(d.vars, 0, <<>>)
+      vals == EnumValues(d.vars, NumInt(0), <<>>)
       marks == {i \in DOMAIN d.vars : d.vars[i].dflt}
       dflt == IF marks = {} THEN None ELSE (CHOOSE i \in marks : \A j \in marks : i <= j) - 1
       isInt == ty.k = "raw" /\ Len(ty.p) = 1 /\ ty.p[1] \in IntBases
-      outOfRange == isInt /\ \E i \in DOMAIN vals :
-                       vals[i].val < IntRange(ty.p[1])[1] \/ vals[i].val > IntRange(ty.p[1])[2]
+      outOfRange == isInt /\ \E i \in DOMAIN vals : ~NumFits(ty.p[1], vals[i].val)
+      (* the counter is an isize: writing a value past it cannot be parsed, and stepping *)
+      (* past isize::MAX must be an error, not an overflow                               *)
+      counterOverflow == \E i \in DOMAIN vals : ~FitsIsize(vals[i].val)
   IN IF ty = TNone \/ size = None THEN Defer(<<>>)
      ELSE IF Cardinality(marks) > 1 THEN FailA("multiple-default", <<>>)
      ELSE IF d.defaultable /\ marks = {} THEN FailA("defaultable-without-default", <<>>)
      ELSE IF ~d.defaultable /\ marks # {} THEN FailA("default-without-defaultable", <<>>)
+     ELSE IF counterOverflow THEN FailA("discriminant-overflow", <<>>)
      ELSE IF CHECKENUMRANGE /\ outOfRange THEN FailA("discriminant-out-of-range", <<>>)
      ELSE Done(EnumRes(size, AlignOf(reg, ptr, ty), ty, vals, dflt, d), <<>>)
 
